@@ -8,7 +8,7 @@ import functools
 import itertools
 import random
 
-from vf import extract as X, gen as G
+from vf import desc as D, extract as X, gen as G
 
 PROP = "C06"
 WATCHDOG_S = 3000
@@ -117,6 +117,16 @@ OKINDS = ("none", "ideal", "main", "ramp", "simple")
 
 
 def mkorigin(M, kind):
+    if D.FORMS["rng"] is not None and D.FORMS["rng"].random() < 0.15:
+        # user-defined kinds derived from the stock kinds: the conditions speak of what an origin IS
+        from vf import userkinds as UK
+
+        if kind == "ideal":
+            return UK.BoundaryDetector()
+        if kind == "ramp":
+            return UK.AlineaRamp(2000.0)
+        if kind == "simple":
+            return UK.HovRamp(2000.0)
     if kind == "ideal":
         return M.Origin()
     if kind == "main":
